@@ -267,6 +267,19 @@ class Sym:
         if k == 'discr':
             v = self.read_place(p, rv.place)
             if isinstance(v, Agg):
+                std = {'None': 0, 'Some': 1, 'Ok': 0, 'Err': 1, 'Continue': 0, 'Break': 1}
+                if v.variant in std and str(v.kind).rsplit('::', 1)[-1].split('<')[0] in ('Option', 'Result', 'ControlFlow'):
+                    return Aff.const(std[v.variant])      # a value built on this path: its variant is known
+                # ... also for an enum of the crate (`SeekTarget::Buffered(pos)` built by an inlined helper); explicit discriminants excluded
+                try:
+                    from mir import strip_generics as _sg
+                    adt = self.prog.adts.get(_sg(str(v.kind)))
+                    if adt and adt.get('kind') == 'enum' and self.inline:
+                        names = [x['name'] for x in adt['variants']]
+                        if v.variant in names and not any(x.get('discr') not in (None, i) for i, x in enumerate(adt['variants'])):
+                            return Aff.const(names.index(v.variant))
+                except Exception:
+                    pass
                 return Aff.sym(('variant', v.variant))
             s = v.single()
             return Aff.sym(('discr', s if s is not None else ('expr', repr(v))))
@@ -284,6 +297,9 @@ class Sym:
         args = [self.operand(p, a) for a in t.args]
         p.effects.append((blk, t, args))
         c = t.callee
+        if c is not None and c.is_('buffer_redux::BufReader::buf_len'):
+            # the length of the reader's buffer, asked from the BufReader directly
+            return Aff.sym(('len', ('buffer', p.env.get('#buf', 0))))
         if c is not None and (c.is_(*LEN_CALLS) or (c.name == 'len' and len(args) == 1)):
             a = args[0]
             s = a.single() if isinstance(a, Aff) else None
@@ -295,6 +311,18 @@ class Sym:
                 and all(isinstance(f, Aff) for f in args[0].fields) and isinstance(args[1], Aff):
             # (lo..hi).contains(&x): kept structured so that rules can read  lo <= x < hi  off a path condition
             return Aff.sym(('inrange', args[0].fields[0], args[0].fields[1], args[1]))
+        if c is not None and args and isinstance(args[0], Agg) and args[0].variant in ('Some', 'None', 'Ok', 'Err') and c.path.startswith(('std::option::Option::', 'std::result::Result::')):
+            # accessors of an Option / Result whose variant is known on this path (built by an inlined helper)
+            a0 = args[0]
+            good = a0.variant in ('Some', 'Ok')
+            if c.name in ('unwrap_or',) and len(args) == 2:
+                return a0.fields[0] if good and a0.fields else args[1]
+            if c.name in ('unwrap', 'expect') and good and a0.fields:
+                return a0.fields[0]
+            if c.name in ('is_some', 'is_ok'):
+                return Aff.const(int(good))
+            if c.name in ('is_none', 'is_err'):
+                return Aff.const(int(not good))
         if c is not None and is_buffer_call(self.prog, c):
             # the reader buffer: one symbol per buffer content (bumped by every call that alters the buffer)
             return Aff.sym(('buffer', p.env.get('#buf', 0)))
@@ -311,6 +339,19 @@ class Sym:
                 init.env['#buf'] = p.env.get('#buf', 0)
                 init.store = dict(p.store)
                 qs = [q for q in sub.run(0, init=init) if q.end[0] == 'return']
+                if self.inline == 'multi' and 2 <= len(qs) <= 6 and cb.local_tys[1:2] and cb.local_tys[1].startswith('&') and not cb.local_tys[1].startswith('&mut'):
+                    # a small `&self` helper with a few outcomes (`fn buffer_index(&self, byte) -> Option<usize>`): one continuation
+                    # of the caller's path per outcome, with the helper's conditions
+                    outs = []
+                    for q in qs:
+                        pp = p.fork()
+                        pp.store = q.store
+                        pp.env['#buf'] = q.env.get('#buf', 0)
+                        pp.effects += [(blk, t2, a2) for (_, t2, a2) in q.effects]
+                        pp.writes += [(blk, loc, v) for (_, loc, v) in q.writes]
+                        pp.conds += [(blk, d, tk) for (_, d, tk) in q.conds]
+                        outs.append((pp, q.env.get(0, Aff.sym(('call', c.path, blk)))))
+                    return outs
                 if len(qs) == 1:
                     q = qs[0]
                     p.store = q.store
@@ -350,6 +391,15 @@ class Sym:
                 done.append(p)
             elif t.k == 'call':
                 v = self.call(p, x, t)
+                if isinstance(v, list):
+                    for (pp, vv) in v:
+                        self.assign(pp, x, t.dest, vv)
+                        if t.target is None:
+                            pp.end = ('dead', x)
+                            done.append(pp)
+                        else:
+                            work.append((t.target, pp, False))
+                    continue
                 self.assign(p, x, t.dest, v)
                 if t.target is None:
                     p.end = ('dead', x)
